@@ -423,18 +423,18 @@ func (d *dnsLeg) dnsChain() []routing.RulesOptimizer {
 }
 
 type dnsDetail struct {
-	Pipeline  string      `json:"pipeline"`
-	Leg       string      `json:"leg"`
-	Diag      string      `json:"diag"`
+	Pipeline  string       `json:"pipeline"`
+	Leg       string       `json:"leg"`
+	Diag      string       `json:"diag"`
 	Program   *ref.Program `json:"program_as_written"`
-	Config    string      `json:"config"`
-	Input     ref.Input   `json:"input"`
-	InputText string      `json:"input_text"`
-	Want      string      `json:"want"`
-	Got       string      `json:"got"`
-	HitRule   int         `json:"reference_hit_rule"`
-	Written   string      `json:"rules_as_written"`
-	Optimised string      `json:"rules_actually_lowered"`
+	Config    string       `json:"config"`
+	Input     ref.Input    `json:"input"`
+	InputText string       `json:"input_text"`
+	Want      string       `json:"want"`
+	Got       string       `json:"got"`
+	HitRule   int          `json:"reference_hit_rule"`
+	Written   string       `json:"rules_as_written"`
+	Optimised string       `json:"rules_actually_lowered"`
 }
 
 type dnsList struct {
